@@ -6,6 +6,8 @@ import (
 	"strings"
 	"sync"
 
+	"github.com/MichaelMure/git-bug/query"
+
 	"verifharness/par"
 )
 
@@ -45,6 +47,10 @@ func errClass(err error) string {
 // neither.
 func parseVerdict(s string) (sig, detail, class string) {
 	q, err, pan := safeParse(s)
+	return verdictOf(s, q, err, pan)
+}
+
+func verdictOf(s string, q *query.Query, err error, pan any) (sig, detail, class string) {
 	switch {
 	case pan != nil:
 		return "parse-panic", fmt.Sprintf("query.Parse(%q) panicked: %v", s, pan), ""
@@ -126,19 +132,24 @@ func tokenList() []token {
 		mk("title", "Critical", false), mk("title", "Typo in string", false), mk("title", "a:b", false),
 		mk("nolabel", "", false), mkMeta("github-id", "42", false), mkMeta("origin", "two words", false),
 		mk("search", "word", false), mk("search", "two words", false), mk("search", "é", false),
+		// double-quoted values containing apostrophes (one, one, two)
+		mk("title", "can't reproduce", false), mk("label", "it's", false), mk("search", "'tis 'twas", false),
 	}
 	valid = append(valid, sortClauses()...)
 	for _, c := range valid {
 		out = append(out, token{Text: c.Text, Kind: "valid", C: c})
 	}
 	for _, m := range malformedPieces {
+		if strings.Contains(m.Text, `'`) {
+			continue // open quotes are position dependent, hence "free" here; two of them are enough
+		}
 		if strings.Contains(m.Text, `"`) {
 			out = append(out, token{Text: m.Text, Kind: "free"}) // an open quote swallows what follows: position dependent
 			continue
 		}
 		out = append(out, token{Text: m.Text, Kind: "invalid", Why: m.Why})
 	}
-	for _, f := range []string{"state:open", "status:OPEN", "STATUS:open", "Sort:id", "'single quoted'", "label:'x y'", `"`, "'", `""`, `label:""`, "metadata:k", `a"b`, "-", "sort:", "no:"} {
+	for _, f := range []string{"state:open", "status:OPEN", "STATUS:open", "'single quoted'", "label:'x y'", `"`, "'", `""`, `label:""`, "metadata:k", `a"b`, "-", "sort:", "title:can't"} {
 		out = append(out, token{Text: f, Kind: "free"})
 	}
 	return out
@@ -202,7 +213,8 @@ func joinTokens(toks []token, seq []int) string {
 
 func checkTokenString(toks []token, seq []int) (sig, detail, class string) {
 	s := joinTokens(toks, seq)
-	sig, detail, class = parseVerdict(s)
+	q, err, pan := safeParse(s)
+	sig, detail, class = verdictOf(s, q, err, pan)
 	if sig != "" {
 		return
 	}
@@ -222,7 +234,6 @@ func checkTokenString(toks []token, seq []int) (sig, detail, class string) {
 		}
 	}
 	want, twoSorts := denote(cs)
-	q, err, _ := safeParse(s)
 	switch {
 	case invalid || twoSorts:
 		if err == nil {
